@@ -39,6 +39,10 @@ var hardDocNumbers = []float64{1e21, -1.5e300, 1e308, -1e308, 1.7976931348623157
 // whose sums cannot overflow); it is set by a test before it generates anything.
 var moderateOnly bool
 
+// plainKeysOnly keeps keys that differ only by the case of their first letter out of generated
+// objects (set by the test that lower-cases field names of struct documents).
+var plainKeysOnly bool
+
 type docOpts struct {
 	maxDepth int
 	maxWidth int
@@ -133,7 +137,11 @@ func genObject(t *rapid.T, depth int, o docOpts) interface{} {
 	n := rapid.IntRange(0, o.maxWidth).Draw(t, "objectLen")
 	m := map[string]interface{}{}
 	for i := 0; i < n; i++ {
-		k := rapid.SampledFrom(docKeys).Draw(t, "key")
+		keys := docKeys
+		if plainKeysOnly {
+			keys = docKeys[:8]
+		}
+		k := rapid.SampledFrom(keys).Draw(t, "key")
 		m[k] = genValue(t, depth+1, o)
 	}
 	return m
@@ -271,6 +279,11 @@ func (g *exprGen) keyFor(cur interface{}) string {
 	if m, ok := cur.(map[string]interface{}); ok && len(m) > 0 && !g.pct(g.f.mismatch, "missKey") {
 		ks := ref.SortedKeys(m)
 		return ks[g.n(len(ks), "key")]
+	}
+	if g.f.nav {
+		// struct documents: a name is matched after upper-casing its first letter, so names that
+		// differ only by that letter's case are not part of this vocabulary
+		return vocabKeys[g.n(8, "vocabKey")]
 	}
 	return vocabKeys[g.n(len(vocabKeys), "vocabKey")]
 }
@@ -618,7 +631,11 @@ func (g *exprGen) multiselect(cur interface{}, depth int, afterDot bool) []strin
 		out := []string{"{"}
 		used := map[string]bool{}
 		for i := 0; i < n; i++ {
-			k := vocabKeys[g.n(len(vocabKeys), "msKey")]
+			nk := len(vocabKeys)
+			if g.f.nav {
+				nk = 8
+			}
+			k := vocabKeys[g.n(nk, "msKey")]
 			if used[k] {
 				continue
 			}
